@@ -217,6 +217,9 @@ func run(c *vf.Ctx) {
 		return
 	}
 	vrt.ReleasePoints = true
+	if dn, err := os.OpenFile(os.DevNull, os.O_WRONLY, 0); err == nil {
+		os.Stdout = dn // the library's packet-describing handlers print; workers report through their shard file
+	}
 	tot := &totals{}
 	si, sn := vf.ShardOf()
 	for idx, sc := range all {
